@@ -328,6 +328,66 @@ def _r132(ctx: Ctx) -> None:
            key='get_simulations|runs')
 
 
+def _r132_splitting(ctx: Ctx) -> None:
+    """A splitting simulation gets one decoder per error rate (get_simulations builds them in the order of the
+    requested rates): after construction decoder i must be the one built for error_rates[i]."""
+    m = ctx.model
+    ci = m.cls('SplittingSimulation')
+    init = ci.find_method('__init__')
+    ctx.need(init is not None, 'R13.2', site_of(ci.module, ci.node), 'SplittingSimulation.__init__ not found')
+    site = site_of(init[0].module, init[1])
+    from ..symnp import call_numpy
+
+    class H(Hooks):
+        def call(self, it, func, args, kwargs, node, env):
+            if isinstance(func, BoundMethod) and func.closure.fn.name == '__init__' and func.closure.cls is not None \
+                    and func.closure.cls.name == 'BaseSimulation':
+                func.obj.fields.setdefault('_results', {})
+                func.obj.fields.setdefault('_inputs', {})
+                return None
+            if isinstance(func, Ext) and func.name.startswith('numpy'):
+                r = call_numpy(func, args, kwargs)
+                return TOP if r is NOT_HANDLED else r
+            return NOT_HANDLED
+    for label, rates in (('ascending', [0.1, 0.2, 0.3]), ('descending', [0.3, 0.2, 0.1]), ('unordered', [0.2, 0.3, 0.1])):
+        it = Interp(m, H())
+
+        def thunk():
+            o = Obj(ci, 'sim')
+            decs = []
+            for r in rates:
+                d = Obj(m.cls('BaseDecoder'), f'decoder built for p={r}')
+                d.fields.update(error_rate=r, id='D', params={})
+                decs.append(d)
+            it.call_closure(Closure(init[1], init[0].module, init[0]),
+                            [Obj(m.cls('StabilizerCode'), 'code'), Obj(m.cls('BaseErrorModel'), 'noise'), decs, list(rates), 5],
+                            {}, init[1], self_obj=o)
+            return o.fields.get('decoders'), o.fields.get('error_rates')
+        outs = guard('R13.2', init[0].module, init[1])(lambda: it.explore(thunk))
+        ctx.need(len(outs) == 1 and outs[0].kind == 'return', 'R13.2', site, f'SplittingSimulation.__init__: {outs!r}')
+        decs, ers = outs[0].value
+        try:
+            pairs = [(d.fields['error_rate'], float(r)) for d, r in zip(decs, list(ers))]
+        except Exception:
+            raise AnalysisError('R13.2', site, f'SplittingSimulation.__init__: decoders/error_rates not tracked ({decs!r}, {ers!r})')
+        ok = len(pairs) == len(rates) and all(abs(a - b) < 1e-12 for a, b in pairs) and sorted(b for _, b in pairs) == sorted(rates)
+        ctx.ob('R13.2', site, f'SplittingSimulation: decoder i is the decoder built for error_rates[i] ({label} rates)', ok,
+               f'(rate the decoder was built with, rate it is used at) = {pairs}', key=f'SplittingSimulation|pairing[{label}]',
+               facts=pairs)
+    # the step uses them index by index
+    run = ci.methods.get('_run')
+    ctx.need(run is not None, 'R13.2', site, 'SplittingSimulation._run not found')
+    uses = [n for n in ast.walk(run) if isinstance(n, ast.Subscript) and ast.unparse(n.value) == 'self.decoders']
+    loops = [n for n in ast.walk(run) if isinstance(n, ast.For) and 'self.error_rates' in ast.unparse(n.iter)]
+    okr = bool(uses) and all(
+        any(u in ast.walk(lp) and isinstance(lp.target, ast.Tuple) and isinstance(lp.target.elts[0], ast.Name)
+            and ast.unparse(u.slice) == lp.target.elts[0].id and ast.unparse(lp.iter).replace(' ', '') == 'enumerate(self.error_rates)'
+            for lp in loops) or (isinstance(u.slice, ast.Constant))
+        for u in uses)
+    ctx.ob('R13.2', site_of(ci.module, run), 'SplittingSimulation._run: decoders[i] is used with the i-th entry of error_rates', okr,
+           f'uses of self.decoders: {[ast.unparse(u) for u in uses]}', key='SplittingSimulation._run|pairing')
+
+
 # ------------------------------------------------------------------- R13.3
 
 class _HInit(Hooks):
@@ -494,5 +554,7 @@ def run(ctx: Ctx) -> None:
         _r131(ctx)
     with ctx.part():
         _r132(ctx)
+    with ctx.part():
+        _r132_splitting(ctx)
     with ctx.part():
         _r133(ctx)
